@@ -10,6 +10,12 @@ of cases feeds null, out-of-range and malformed arguments: the only assertion th
 error, no sanitizer report, no foreign exception`."""
 import os, random, shutil, sqlite3 as pysqlite, struct, tempfile
 from vlib import *
+import vlib as _vlib
+
+def add_violation(res, sig, what, witness):
+    # this check's workloads cannot legitimately need much memory: an allocator-limit report is a violation here
+    _vlib.add_violation(res, sig, what, witness, keep_exhaustion=True)
+
 
 PROPERTY = "C18"
 LEVEL = "exploration"
